@@ -30,6 +30,17 @@ type T2 struct {
 	Code string `valid:"zz,le=3"`
 }
 
+// Holder reaches T1 as a nested field, as slice elements and as map values.
+type Holder struct {
+	N T1            `valid:"required"`
+	L []*T1         `valid:"exist"`
+	M map[string]T1 `valid:"exist"`
+}
+
+func holder() *Holder {
+	return &Holder{N: T1{F: "", G: 9}, L: []*T1{{F: "abcd", G: 2}}, M: map[string]T1{"k": {F: "", G: 0}}}
+}
+
 var sharedRM = valid.RM{}
 
 // isolatedBudget: child executions this worker may still spend on the one-process-per-execution fallback.
@@ -137,6 +148,26 @@ func callMenu() []callT {
 			func(a []interface{}) (string, []string) { return errText(valid.Var(a[0], a[1].([]string)...)), nil }, nil},
 		{"Var(nil)", func() []interface{} { return []interface{}{nil, []string{"email|never"}} },
 			func(a []interface{}) (string, []string) { return errText(valid.Var(a[0], a[1].([]string)...)), nil }, nil},
+		// a rule set targeted at a type that is reached below the outermost object, and the same objects judged by their
+		// tags alone: what one call was given for T1 plays no part in another
+		{"NestedStructForRule(Holder, rules for T1)", func() []interface{} {
+			return []interface{}{holder(), map[interface{}]valid.RM{T1{}: {"F": "eq=9|typed-F", "G": "required|typed-G"}}}
+		}, func(a []interface{}) (string, []string) {
+			return errText(valid.NestedStructForRule(a[0], a[1].(map[interface{}]valid.RM))), nil
+		}, func() (string, bool) {
+			return walk.Struct(holder(), walk.Opts{Typed: map[reflect.Type]map[string]string{reflect.TypeOf(T1{}): {"F": "eq=9|typed-F", "G": "required|typed-G"}}}).Error(), true
+		}},
+		{"Struct(Holder)", func() []interface{} { return []interface{}{holder()} },
+			func(a []interface{}) (string, []string) { return errText(valid.Struct(a[0])), nil },
+			func() (string, bool) { return walk.Struct(holder(), walk.Opts{}).Error(), true }},
+		{"VStruct.SetRule(rm, &T1{}).Valid([]*T1)", func() []interface{} {
+			return []interface{}{[]*T1{{F: "", G: 9}, {F: "abcd", G: 2}}, valid.RM{"F": "eq=9|typed-F", "G": "required|typed-G"}}
+		}, func(a []interface{}) (string, []string) {
+			return errText(valid.NewVStruct().SetRule(a[1].(valid.RM), &T1{}).Valid(a[0])), nil
+		}, nil},
+		{"Struct([]*T1)", func() []interface{} { return []interface{}{[]*T1{{F: "", G: 9}, {F: "abcd", G: 2}}} },
+			func(a []interface{}) (string, []string) { return errText(valid.Struct(a[0])), nil },
+			func() (string, bool) { return walk.Struct([]*T1{{F: "", G: 9}, {F: "abcd", G: 2}}, walk.Opts{}).Error(), true }},
 		// two rule sets registered in one call: the caller's maps stay the caller's
 		{"VStruct.SetRule x2", func() []interface{} {
 			return []interface{}{&T1{F: "abcd", G: 2}, valid.RM{"F": "to=1~2|rm1-F"}, valid.RM{"G": "eq=7|rm2-G"}}
